@@ -738,6 +738,33 @@ def op_system(st, op, info):
         info.results = []
 
 
-HANDLERS = {"system": op_system, "stock_compute": op_stock_compute, "lifetime": op_lifetime, "mk": op_mk, "arith": op_arith, "reduce": op_reduce, "slice": op_slice, "setitem": op_setitem,
+def op_stock_convert(st, op, info):
+    """to_stock_type / stock_stack on stocks built earlier (C15: inputs untouched; C13: results keep the shape invariant)"""
+    from flodym.stock_helper import stock_stack
+    if not st.stocks:
+        return
+    stock = st.stocks[op.get("k", 0) % len(st.stocks)]
+    info.inputs = [stock.stock, stock.inflow, stock.outflow]
+    if op["how"] == "to_stock_type":
+        info.kind = "stock_convert:to_stock_type"
+        target = {"simple": SimpleFlowDrivenStock, "inflow": InflowDrivenDSM, "stockdriven": StockDrivenDSM}[op.get("cls", "simple")]
+        kw = {}
+        if target is not SimpleFlowDrivenStock and not hasattr(stock, "lifetime_model"):
+            kw["lifetime_model"] = FixedLifetime
+        r = call(st, op, lambda: stock.to_stock_type(target, **kw), info)
+    else:
+        info.kind = "stock_convert:stock_stack"
+        have = list(stock.dims.letters)
+        cands = [i for i in range(len(st.D)) if st.LET[i] not in have and st.LET[i].lower() not in have and st.LET[i].upper() not in have]
+        if not cands:
+            return
+        newdim = st.D[cands[op.get("dim", 0) % len(cands)]]
+        parts = [stock] * len(newdim.items)
+        r = call(st, op, lambda: stock_stack(parts, newdim), info)
+    if info.outcome == "ret":
+        info.stock = r
+
+
+HANDLERS = {"stock_convert": op_stock_convert, "system": op_system, "stock_compute": op_stock_compute, "lifetime": op_lifetime, "mk": op_mk, "arith": op_arith, "reduce": op_reduce, "slice": op_slice, "setitem": op_setitem,
             "set_values": op_set_values, "inplace_unary": op_inplace_unary, "df": op_df, "split": op_split_stack,
             "stack": op_split_stack, "stock": op_stock}
